@@ -108,21 +108,27 @@ type FuncVC struct {
 	// contractedUsed: callees under a (non-trusted) contract that this function is verified against;
 	// lemmasUsed: lemmas instantiated in its obligations. Both feed the dependency closure of a property check.
 	contractedUsed map[string]bool
-	lemmasUsed     map[string]bool
-	discovery      int
-	ordCount       map[string]int
-	localDone      map[string]bool
-	assertsSeen    map[string]bool
-	allocs         map[string]*Val            // address-taken locals by source name
-	defBlock       map[string]*ssa.BasicBlock // block in which a named local was (last) bound
-	curBlock       *ssa.BasicBlock
-	curPos         token.Pos
-	localNames     map[string]bool
-	dcalls         []*delegCall
-	sites          []string
-	siteOrd        map[*ssa.Call]int    // ordinal of a call among the calls to the same callee, in source order
-	debugVals      map[string]SVal      // most recent value bound to a source-level local (go/ssa debug info)
-	bindings       map[string][]binding // all bindings of source-level locals, by defining block
+	// by-value copies of a BigInt (bigint-copy obligations) and everything that could make the sharing between the
+	// copy and its source observable: writes to any BigInt other than the copy itself, whole-heap havoc, constructs
+	// outside the subset, interface calls, non-scalar values wrapped in interfaces. Decided at the end of Generate.
+	bigCopyObls []*Obligation
+	bigWrites   int
+	inBigCopy   bool
+	lemmasUsed  map[string]bool
+	discovery   int
+	ordCount    map[string]int
+	localDone   map[string]bool
+	assertsSeen map[string]bool
+	allocs      map[string]*Val            // address-taken locals by source name
+	defBlock    map[string]*ssa.BasicBlock // block in which a named local was (last) bound
+	curBlock    *ssa.BasicBlock
+	curPos      token.Pos
+	localNames  map[string]bool
+	dcalls      []*delegCall
+	sites       []string
+	siteOrd     map[*ssa.Call]int    // ordinal of a call among the calls to the same callee, in source order
+	debugVals   map[string]SVal      // most recent value bound to a source-level local (go/ssa debug info)
+	bindings    map[string][]binding // all bindings of source-level locals, by defining block
 }
 
 type loopHead struct {
@@ -134,6 +140,7 @@ type loopHead struct {
 }
 
 func (vc *FuncVC) unsupported(format string, args ...interface{}) {
+	vc.bigWrites++
 	vc.unsup = append(vc.unsup, fmt.Sprintf(format, args...))
 }
 
@@ -380,6 +387,9 @@ func (vc *FuncVC) writeAllowed(key string, idx Term) Term {
 }
 
 func (vc *FuncVC) checkWrite(key string, idx Term, what string) {
+	if key == "BigInt.val" && !vc.inBigCopy {
+		vc.bigWrites++
+	}
 	if !vc.fc.HasAssigns || vc.discovery > 0 || strings.HasPrefix(key, "def.") {
 		return
 	}
@@ -714,7 +724,11 @@ func (vc *FuncVC) storeAgg(st *State, a Term, t types.Type, v *Val) {
 		for _, lf := range lvs {
 			if lf.Key == "BigInt.val" {
 				// a BigInt copied by value shares its heap representation with the source: outside the value abstraction of layer 2
-				vc.oblige("S", fmt.Sprintf("bigint-copy#%d", vc.ord("bigint-copy")), vc.reach[vc.curBlock], TFalse, vc.propTags("C05", "C06", "C16", "C18"), vc.fn.Pos(), "a BigInt must not be copied by value (the copy would share the operand's heap representation)")
+				if o := vc.oblige("S", fmt.Sprintf("bigint-copy#%d", vc.ord("bigint-copy")), vc.reach[vc.curBlock], TFalse, vc.propTags("C05", "C06", "C16", "C18"), vc.fn.Pos(), "a BigInt must not be copied by value (the copy would share the operand's heap representation) in a function that writes a BigInt, havocs the heap or lets a non-scalar escape"); o != nil {
+					vc.bigCopyObls = append(vc.bigCopyObls, o)
+				}
+				vc.inBigCopy = true
+				defer func() { vc.inBigCopy = false }()
 				break
 			}
 		}
@@ -1022,7 +1036,39 @@ func (vc *FuncVC) Generate() (err error) {
 			return fmt.Errorf("%s: import of unknown wrapper %s", vc.name, w)
 		}
 	}
+	vc.settleBigCopies()
 	return nil
+}
+
+// settleBigCopies: a by-value copy of a BigInt shares the heap representation of its source, which only a later
+// write through one of the two can make observable. In a function that never writes a BigInt (itself, through a
+// callee's assigns clause or through a callee without frame), uses nothing outside the modelled subset, calls no
+// interface method, wraps no pointer or aggregate in an interface and returns only scalars and interfaces, the copy
+// is a read-only snapshot: its bigint-copy obligations are dropped (noted). Otherwise they stay, and cannot be discharged.
+func (vc *FuncVC) settleBigCopies() {
+	if len(vc.bigCopyObls) == 0 || vc.bigWrites > 0 {
+		return
+	}
+	res := vc.fn.Signature.Results()
+	for i := 0; i < res.Len(); i++ {
+		switch res.At(i).Type().Underlying().(type) {
+		case *types.Basic, *types.Interface:
+		default:
+			return
+		}
+	}
+	drop := map[*Obligation]bool{}
+	for _, o := range vc.bigCopyObls {
+		drop[o] = true
+	}
+	var keep []*Obligation
+	for _, o := range vc.obls {
+		if !drop[o] {
+			keep = append(keep, o)
+		}
+	}
+	vc.obls = keep
+	vc.note("%d by-value BigInt copies accepted as read-only snapshots: the function writes no BigInt, havocs nothing, lets no pointer escape", len(vc.bigCopyObls))
 }
 
 func keysOf(m map[string]bool) []string {
